@@ -433,11 +433,9 @@ as numpy.loadtxt will not work as expected."""
                   dtype=[(np.str_('<;'), '<i8'), (np.str_(';<'), '<i8')])
 
         """
-        return numpy.ndarray(
-            shape=self.shape,
-            dtype=[(key, self.dtype) for key in self.keys],
-            buffer=self.data,
-        )
+        # a base-class view keeps the strides, so transposed and otherwise
+        # non-contiguous polynomials expose their elements in the right order.
+        return numpy.ndarray.view(self, numpy.ndarray)
 
     def isconstant(self) -> bool:
         """
